@@ -229,13 +229,14 @@ func (r *Run) Emit(verifDir string, info Info, findings []Finding, extra map[str
 	for k, v := range extra {
 		cov[k] = v
 	}
+	assumptions := append([]string{"the source files of /repo's working tree are what the Go toolchain builds (no build tags, no generated code)"}, info.Assumptions...)
 	ev := map[string]any{
 		"property_id": r.Property,
 		"tier":        r.Tier,
 		"seed":        0,
 		"level":       "other",
 		"coverage":    cov,
-		"assumptions": info.Assumptions,
+		"assumptions": assumptions,
 		"wall_s":      time.Since(r.start).Seconds(),
 		"violations":  violations,
 	}
